@@ -219,6 +219,8 @@ class Path:
         self.hyps = []                     # abstract hypotheses (atom, truth)
         self.idx = 0
         self.notes = []
+        self.known = {}
+        self.keep = []
 
 
 class Interp:
@@ -737,6 +739,12 @@ class Interp:
         if z3.is_false(cond):
             return False
         p = self.path
+        # a condition already decided on this path (syntactically the same term, or its negation) needs neither the solver nor a decision:
+        # the shortcut depends only on earlier decisions, so replays stay aligned
+        neg = z3.is_not(cond)
+        kid = (cond.arg(0) if neg else cond).get_id()
+        if kid in p.known:
+            return p.known[kid] != neg
         if p.idx < len(p.decisions):
             d = p.decisions[p.idx]
             p.idx += 1
@@ -763,6 +771,8 @@ class Interp:
             p.idx += 1
         p.pc.append(cond if d else z3.Not(cond))
         p.taken.append((cond, d))
+        p.known[kid] = (d != neg)
+        p.keep.append(cond)          # keeps the term alive so that its id is not reused
         return d
 
     def concretize(self, v, bits, limit=64):
